@@ -142,11 +142,20 @@ func (o *OpenSessionRsp) DecodeFromBytes(data []byte, df gopacket.DecodeFeedback
 		// non-zero status code is 7 bytes
 		df.SetTruncated()
 		return fmt.Errorf("RMCP+ Open Session Response must be at least 7 bytes, got %v", len(data))
-	} else {
+	} else if len(data) == 7 {
+		// tag, status, one reserved byte, console session ID; seen in the wild,
+		// one byte short of what the spec describes
 		o.BaseLayer.Contents = data[:7]
 		o.Tag = uint8(data[0])
 		o.Status = StatusCode(data[1])
 		o.RemoteConsoleSessionID = binary.LittleEndian.Uint32(data[3:7])
+	} else {
+		// 13.18: tag, status, max privilege level, reserved, console session
+		// ID; nothing further is returned for a non-zero status code
+		o.BaseLayer.Contents = data[:8]
+		o.Tag = uint8(data[0])
+		o.Status = StatusCode(data[1])
+		o.RemoteConsoleSessionID = binary.LittleEndian.Uint32(data[4:8])
 	}
 
 	if o.Status == StatusCodeOK {
